@@ -196,6 +196,31 @@ theorem power_spectrum_homogeneous (sqrt : K → K) (rms k : K) (mask : Nat → 
       = k * powerSpectrum (fun y => decide (y ≠ 0)) sqrt (· / ·) (fun k => (k : K)) rms mask x seed n i := by
   simp only [powerSpectrum, Gen.psMaskStep, Gen.psNormalise]; ring
 
+/-- the normalisation of the noise filter cannot matter: multiplying the filtered noise by any `c > 0` (another PSD normalisation,
+the `sqrt(m·n)` factor, a different FFT norm) returns the same surface — for a `sqrt` that is homogeneous on positive scales -/
+theorem power_spectrum_invariant_under_noise_scale [LinearOrder K] [IsStrictOrderedRing K] (sqrt : K → K)
+    (hsc : ∀ y c : K, 0 < c → sqrt (y / (c * c)) = sqrt y / c) (rms c : K) (hc : 0 < c) (mask : Nat → K) (x : Int → Nat → K)
+    (seed : Int) (n i : Nat) :
+    powerSpectrum (fun y => decide (y ≠ 0)) sqrt (· / ·) (fun k => (k : K)) rms mask (fun sd j => c * x sd j) seed n i =
+      powerSpectrum (fun y => decide (y ≠ 0)) sqrt (· / ·) (fun k => (k : K)) rms mask x seed n i := by
+  have hc0 : c ≠ 0 := ne_of_gt hc
+  have hcount : countNonzero (fun y => decide (y ≠ 0)) n (fun j => c * x seed j * mask j) =
+      countNonzero (fun y => decide (y ≠ 0)) n (fun j => x seed j * mask j) := by
+    unfold countNonzero
+    congr 1; apply List.filter_congr; intro j _
+    have : c * x seed j * mask j = 0 ↔ x seed j * mask j = 0 := by
+      rw [mul_assoc]; exact ⟨fun h => (mul_eq_zero.mp h).resolve_left hc0, fun h => by rw [h, mul_zero]⟩
+    simp [this]
+  have hsum : (∑ j ∈ range n, (c * x seed j * mask j) * (c * x seed j * mask j)) =
+      (c * c) * ∑ j ∈ range n, (x seed j * mask j) * (x seed j * mask j) := by
+    rw [Finset.mul_sum]; apply Finset.sum_congr rfl; intro j _; ring
+  simp only [powerSpectrum, Gen.psMaskStep, Gen.psNormalise, sumRange_eq_sum, hcount, hsum]
+  rw [show ((countNonzero (fun y => decide (y ≠ 0)) n (fun j => x seed j * mask j) : ℕ) : K) /
+        (c * c * ∑ j ∈ range n, (x seed j * mask j) * (x seed j * mask j)) =
+      (((countNonzero (fun y => decide (y ≠ 0)) n (fun j => x seed j * mask j) : ℕ) : K) /
+        ∑ j ∈ range n, (x seed j * mask j) * (x seed j * mask j)) / (c * c) by rw [div_div, mul_comm], hsc _ c hc]
+  field_simp
+
 /-- once a map has mean square `rms²` over its `c` non-zero pixels, normalising it again multiplies it by exactly 1 — the
 normalisation the code applies is a projection (this is what the correspondence op `st.power` checks on the returned map) -/
 theorem power_spectrum_fixed_point [LinearOrder K] [IsStrictOrderedRing K] (sqrt : K → K) (hsqr : ∀ y, 0 ≤ y → sqrt (y * y) = y)
